@@ -361,13 +361,12 @@ func stringLit(t types.Type, s string) Val {
 		if a, ok := strLits[s]; ok {
 			arr = a
 		} else {
+			// long literal: a named array whose bytes are known to the term layer (selects at constant
+			// indices fold to the byte); no byte axioms are sent to the solvers, so facts about its
+			// contents at symbolic indices are simply not available (incomplete, never unsound)
 			arr = Var(name, StrArr)
 			strLits[s] = arr
-			var ax []*Term
-			for i := 0; i < len(s); i++ {
-				ax = append(ax, Eq(mk("select", "", BV8, nil, arr, BVI(int64(i), 64)), BVI(int64(s[i]), 8)))
-			}
-			litAxioms[arr.Name] = ax
+			litBytes[arr] = s
 		}
 	}
 	return Val{T: t, C: []*Term{arr, BVI(0, 64), BVI(int64(len(s)), 64)}}
